@@ -60,6 +60,21 @@ def from_int(i):
     return V("int", int(i))
 
 
+def from_int_literal(i):
+    """An integer literal of any size (a Python int in the package); arithmetic on one beyond the 64-bit range is outside
+    the domain, passing it on, negating it or storing it in a scalar is not."""
+    return V("int", int(i))
+
+
+def _big(*xs):
+    return any(x.kind == "int" and not -I64 <= x.v < I64 for x in xs)
+
+
+def _no_big(*xs):
+    if _big(*xs):
+        raise OutOfDomain("arithmetic on an integer beyond the 64-bit range")
+
+
 def from_float_text(text):
     f = float(text)
     if f != f or f in (float("inf"), float("-inf")):
@@ -114,11 +129,12 @@ def _join_kind(a, b):
 
 def neg(a):
     if a.kind == "int":
-        return from_int(-a.v)
+        return V("int", -a.v) if _big(a) else from_int(-a.v)
     return V(a.kind, -a.v, a.err)
 
 
 def add(a, b, sub=False):
+    _no_big(a, b)
     if a.kind == "int" and b.kind == "int":
         return from_int(a.v - b.v if sub else a.v + b.v)
     k = _join_kind(a, b)
@@ -135,6 +151,7 @@ def _conv(a):
 
 
 def mul(a, b):
+    _no_big(a, b)
     if a.kind == "int" and b.kind == "int":
         return from_int(a.v * b.v)
     k = _join_kind(a, b)
@@ -145,6 +162,7 @@ def mul(a, b):
 
 
 def div(a, b):
+    _no_big(a, b)
     # true division, also for integers; implemented as a * b**-1 (two roundings)
     if b.mag == 0:
         raise OutOfDomain("division by zero")
@@ -162,6 +180,7 @@ def div(a, b):
 
 
 def power(a, b):
+    _no_big(a, b)
     if a.kind == "int" and b.kind == "int":
         if b.v < 0:
             raise OutOfDomain("int ** negative int")
@@ -225,6 +244,7 @@ FUNCTION_NAMES = sorted(_FUNCS)
 
 
 def func(name, a):
+    _no_big(a)
     if a.kind == "complex":
         raise OutOfDomain("function of a complex argument")
     f, d, dom = _FUNCS[name]
